@@ -1191,6 +1191,7 @@ func Run(c *ev.Ctx) int {
 		go func(cf cfgT) {
 			defer wg.Done()
 			gatedLane(c, cf)
+			listPartsPaging(c, cf)
 		}(cf)
 	}
 	wg.Wait()
